@@ -2,6 +2,7 @@ package main
 
 import (
 	"fmt"
+	"os"
 	"go/constant"
 	"go/token"
 	"go/types"
@@ -76,6 +77,8 @@ type Exec struct {
 }
 
 type pathEnd struct{}
+
+var traceForks = os.Getenv("GOVC_TRACE") != ""
 
 func (x *Exec) unsupportedf(format string, args ...interface{}) {
 	panic(unsupportedErr{fmt.Sprintf(format, args...)})
@@ -185,6 +188,14 @@ func (x *Exec) execBlock(st *State, from, b *ssa.BasicBlock) {
 				return
 			}
 			x.loopEntry(st, l)
+			if splits := x.loopSplits(st, l); len(splits) != 1 || splits[0] != st {
+				for _, s2 := range splits {
+					x.paths++
+					s2.path = append(s2.path, fmt.Sprintf("%d", b.Index))
+					x.execFrom(s2, b, 0)
+				}
+				return
+			}
 		} else if l != nil {
 			st.loopIt[l]++
 			limit := 4*(x.rank+2) + 8
@@ -246,8 +257,15 @@ func (x *Exec) execFrom(st *State, b *ssa.BasicBlock, idx int) {
 				return
 			}
 			x.paths++
+			if traceForks {
+				cs := c.S
+				if len(cs) > 300 {
+					cs = cs[:300] + "..."
+				}
+				fmt.Fprintf(os.Stderr, "fork at block %d (%s): %s\n", b.Index, x.posOf(v), cs)
+			}
 			if x.paths > x.maxPaths {
-				x.unsupportedf("path budget exceeded in %s", x.key)
+				x.unsupportedf("path budget exceeded in %s (at %s)", x.key, strings.Join(st.path, ">"))
 			}
 			st2 := st.clone()
 			st.assume(c)
@@ -323,13 +341,24 @@ func (x *Exec) val(st *State, v ssa.Value) Value {
 	case *ssa.Global:
 		return x.globalPtr(c)
 	case *ssa.Function:
-		return FuncV{T: IntLit(int64(x.P.typeTag(types.NewPointer(c.Signature)) + 100000)), Name: funcKey(c), Sig: c.Signature, Fn: c}
+		return x.funcValue(c)
 	case *ssa.Builtin:
 		return FuncV{Name: "builtin:" + c.Name()}
 	case *ssa.Parameter, *ssa.FreeVar:
 		panic(fmt.Sprintf("unbound %s %s in %s", v.Name(), v.Type(), fr.fn.Name()))
 	}
 	panic(fmt.Sprintf("val: no value for %s (%T) in %s", v.Name(), v, fr.fn.Name()))
+}
+
+func (x *Exec) funcValue(c *ssa.Function) Value {
+	x.P.mu.Lock()
+	id, ok := x.P.funcIDs[c]
+	if !ok {
+		id = len(x.P.funcIDs) + 1
+		x.P.funcIDs[c] = id
+	}
+	x.P.mu.Unlock()
+	return FuncV{T: IntLit(int64(100000 + id)), Name: funcKey(c), Sig: c.Signature, Fn: c}
 }
 
 func (x *Exec) globalPtr(g *ssa.Global) Value {
